@@ -214,6 +214,16 @@ fn id_annot_to_doc(
   )
 }
 
+/// The precedence level as the parser implements it: `::` binds tighter than `*`, `/` and `%`
+/// (parse_concat sits below parse_factor), although `BinaryOperator::precedence` lists it
+/// together with `+` and `-`.
+fn parser_precedence(expression: &expr::E<()>) -> i32 {
+  match expression {
+    expr::E::Binary(b) if b.operator == expr::BinaryOperator::CONCAT => 3,
+    _ => expression.precedence(),
+  }
+}
+
 fn create_doc_for_subexpression_considering_precedence_level(
   heap: &Heap,
   comment_store: &CommentStore,
@@ -222,9 +232,9 @@ fn create_doc_for_subexpression_considering_precedence_level(
   equal_level_parenthesis: bool,
 ) -> Document {
   let add_parenthesis = if equal_level_parenthesis {
-    sub_expression.precedence() >= expression.precedence()
+    parser_precedence(sub_expression) >= parser_precedence(expression)
   } else {
-    sub_expression.precedence() > expression.precedence()
+    parser_precedence(sub_expression) > parser_precedence(expression)
   };
   if add_parenthesis {
     parenthesis_surrounded_doc(create_doc(heap, comment_store, sub_expression))
@@ -647,7 +657,7 @@ fn create_doc_without_preceding_comment(
         Document::Text(e.operator.kind_str()),
         Document::Text(" "),
       ]);
-      if e.e1.precedence() == expression.precedence() {
+      if parser_precedence(&e.e1) == parser_precedence(expression) {
         // Since we are doing left to right evaluation, this is safe.
         return Document::concat(vec![
           create_doc(heap, comment_store, &e.e1),
